@@ -1038,6 +1038,19 @@ class Interp:
             return False
         if isinstance(a, (DT, TD)) or isinstance(b, (DT, TD)):
             return False
+        # containers compare element by element with the elements' own (abstract) equality
+        if isinstance(a, (list, tuple)) and isinstance(b, (list, tuple)) and not isinstance(a, NT) \
+                and not isinstance(b, NT):
+            if isinstance(a, list) != isinstance(b, list):
+                return False
+            return len(a) == len(b) and all(self._identical(x, y) or self._equal(x, y) for x, y in zip(a, b))
+        if isinstance(a, dict) and isinstance(b, dict):
+            try:
+                if set(a) != set(b):
+                    return False
+            except TypeError:
+                raise Unsupported("equality of mappings with unhashable keys")
+            return all(self._identical(a[k], b[k]) or self._equal(a[k], b[k]) for k in a)
         try:
             return a == b
         except Exception:
@@ -2991,8 +3004,16 @@ class Interp:
             return o
         if meth == "__eq__" and isinstance(selfv, Obj) and selfv.items is not None:
             other = args[0]
-            return isinstance(other, Obj) and other.items is not None and \
-                dict(selfv.items) == dict(other.items)
+            if isinstance(other, dict):
+                oi = other
+            elif isinstance(other, Obj) and other.items is not None:
+                oi = other.items
+            else:
+                return False
+            # dict equality: same keys, values equal by *their* == (the abstract one)
+            if set(selfv.items) != set(oi):
+                return False
+            return all(self._equal(selfv.items[k], oi[k]) for k in selfv.items)
         if isinstance(selfv, Obj) and selfv.items is not None:
             # the builtin dict / OrderedDict under the CaselessDict family: raw keys
             it = selfv.items
